@@ -24,7 +24,7 @@ func init() {
 			"documented names (Key/Data, Created, Key, ParentKeyMeta{KeyId,Created}, Revoked omitempty, ID not serialised; Id/Created/KeyRecord attributes) and []byte fields stay []byte (base64 in JSON); (gcm-layout) nonce size 12 and tag " +
 			"size 16 constants, AES-256 key size 32, Encrypt writes ciphertext‖tag from offset 0 and the random nonce in the last NonceSize bytes, Decrypt reads them back from the same places; (key-ids) the Sprintf formats fold to " +
 			"_SK_%s_%s / _IK_%s_%s_%s (+_%s region suffix) with operands in the documented order; (sql-row) the SQL row is the JSON of the envelope (C13.field-fidelity); (proto-mapping, U2) toProtobufDRR/fromProtobufDRR map every " +
-			"field to its namesake. Byte-level interop with the Java/C# implementations is not executed.",
+			"field to its namesake; (key-id-operands) the partition constructors fill id/service/product/suffix from their namesake parameters and every call passes them in that order. Byte-level interop with the Java/C# implementations is not executed.",
 		NotDecided:  []string{"byte-level interoperability with other language implementations", "encoding/json and protobuf encoding details", "what AES-GCM outputs"},
 		Assumptions: []string{"the documented layout frozen in this checker is the contract (docs/DesignAndArchitecture.md, docs/Metastore.md)", "encoding/json encodes []byte as base64 and honours struct tags"},
 		Tech:        "static analysis: struct tags and constants from go/types, constant-folded format strings, slice-shape agreement of writer and reader on SSA, struct-to-struct field mapping",
